@@ -173,6 +173,43 @@ def worker {σ : Type} (sp : Splitter σ) (bufSize : Nat) : CState → σ → Li
     let r := saveFile sp bufSize cs st f
     r.1 :: worker sp bufSize r.2.1 r.2.2 fs
 
+/-! ### several workers at once
+
+`newFileSaver` starts `fileWorkers` goroutines; each runs `worker`, i.e. owns ONE chunker obtained
+from `chunkerFactory.NewChunker()` and ONE `fileChunkState`. The goroutines interleave arbitrarily.
+The model: one `WState` per worker, a schedule (list of worker indices) says whose turn it is, a
+turn is one `readNextChunk` call of that worker's chunk loop. Nothing is shared between workers —
+that the factory really hands out independent chunkers is tied by T1 (`NewChunker` calls
+`chunker.NewBase`) and by the `conc` correspondence stream. -/
+
+/-- a worker in the middle of `saveFile` -/
+structure WState (σ : Type) where
+  cs : CState
+  rd : Reader
+  st : σ
+  acc : List Bytes
+  out : Option Out       -- `some` once the file is finished
+
+/-- one iteration of the chunk loop of one worker -/
+def wstep {σ : Type} (sp : Splitter σ) (bufSize : Nat) (w : WState σ) : WState σ :=
+  match w.out with
+  | some _ => w
+  | none =>
+    match readNextChunk sp bufSize w.cs w.rd w.st [] with
+    | (.chunk d, cs', rd', st') => { cs := cs', rd := rd', st := st', acc := w.acc ++ [d], out := none }
+    | (.eof, cs', rd', st') => { cs := cs', rd := rd', st := st', acc := w.acc, out := some (.ok w.acc) }
+    | (.error, cs', rd', st') => { cs := cs', rd := rd', st := st', acc := w.acc, out := some .error }
+    | (.badSplit k a, cs', rd', st') => { cs := cs', rd := rd', st := st', acc := w.acc, out := some (.badSplit k a) }
+    | (.spin, cs', rd', st') => { cs := cs', rd := rd', st := st', acc := w.acc, out := some .spin }
+
+/-- a worker that has just taken `file` from the job channel: `saveFile` resets chunker and chunk state -/
+def wstart {σ : Type} (sp : Splitter σ) (cs : CState) (_st : σ) (file : Reader) : WState σ :=
+  { cs := cs.reset, rd := file, st := sp.init, acc := [], out := none }
+
+/-- the pool: the worker named by each schedule entry takes one turn -/
+def runPool {σ : Type} (sp : Splitter σ) (bufSize : Nat) (sched : List Nat) (ws : List (WState σ)) : List (WState σ) :=
+  sched.foldl (fun ws i => ws.modify i (wstep sp bufSize)) ws
+
 /-- chunks of a file that is read without error, from a fresh worker -/
 def chunks {σ : Type} (sp : Splitter σ) (bufSize : Nat) (file : Bytes) : Out :=
   (saveFile sp bufSize { buf := [], bpos := 0, closed := false } sp.init { data := file, failAtEnd := false }).1
